@@ -439,8 +439,13 @@ impl Package {
         if let (Ok(payload_digest_val), Ok(payload_digest_algo)) =
             (payload_digest_val, payload_digest_algo)
         {
-            let payload_digest_algo = DigestAlgorithm::from_u32(payload_digest_algo)
-                .expect("Completely unknown payload digest algorithm");
+            let payload_digest_algo =
+                DigestAlgorithm::from_u32(payload_digest_algo).ok_or_else(|| {
+                    Error::InvalidTagValueEnumVariant {
+                        tag: IndexTag::RPMTAG_PAYLOADDIGESTALGO.to_string(),
+                        variant: payload_digest_algo,
+                    }
+                })?;
 
             // @todo: UnsupportedDigestAlgorithm is awkward, if a number is outside the range of the expected
             // variants to begin with, we can't even return it, as it carries a DigestAlgorithm. But also, in
@@ -456,7 +461,8 @@ impl Package {
                 hasher.update(self.content.as_slice());
                 hex::encode(hasher.finalize())
             };
-            if payload_digest != payload_digest_val[0] {
+            // an empty digest array records nothing that could match
+            if payload_digest_val.first() != Some(&payload_digest) {
                 return Err(Error::DigestMismatchError);
             }
         }
